@@ -101,7 +101,7 @@ void execute(const sim::Plan& p, sim::Run& r) {
     if (!only.empty() && only != c.name) continue;
     sth::Obs o;
     r.log(std::string(c.name));
-    c.exec(p, r, o);
+    try { c.exec(p, r, o); } catch (const sim::Failure&) { throw; } catch (const std::exception& ex) { r.fail("exception", std::string("[") + c.name + "] unexpected exception: " + ex.what()); }
     all.emplace_back(c.name, o);
   }
   // identical under every storage option set and build: observations with the same tag must agree
